@@ -307,7 +307,61 @@ def cond_facts(cx, s, truth, depth=0):
     return []
 
 
-def edge_facts(B, cx, site_bb):
+_OK_FACTS = {}
+
+
+def ok_facts(F, callee, depth=0):
+    """Summary of a checking helper of the repository (`fn expect_one_arg(args: &[T]) -> Result<(), E>`): the facts
+    about its parameters that hold on *every* path on which it returns Ok — [(Lin over `arg` atoms, rel)].  Used where
+    a caller continues only on `helper(..)?`'s success edge, so an arity test moved into a helper still guards `args[k]`."""
+    key = (id(F), callee)
+    if key in _OK_FACTS:
+        return _OK_FACTS[key]
+    _OK_FACTS[key] = []
+    g = F.fn(callee)
+    if g is None or not g.get("mir") or depth > 2:
+        return []
+    Bh = M.Body(g)
+    if Bh.n > 60:
+        return []
+    cxh = Ctx(Bh, F)
+    oks = []
+    for bi, b in enumerate(Bh.blocks):
+        if b.get("cleanup"):
+            continue
+        for st in b["stmts"]:
+            if st.get("k") == "assign" and st["lhs"]["l"] == 0 and not st["lhs"]["p"]:
+                rv = st["rv"]
+                if rv.get("k") == "agg" and str(rv.get("ak", "")).endswith("Result::Ok"):
+                    oks.append(bi)
+                elif rv.get("k") == "agg" and str(rv.get("ak", "")).endswith("Result::Err"):
+                    pass
+                else:
+                    return []      # the result is computed some other way: no summary
+    if not oks or bi is None:
+        return []
+    common = None
+    for bi in oks:
+        fs, _ = edge_facts(Bh, cxh, bi, depth + 1)
+        reprs = {(repr(l), rel): (l, rel) for l, rel in fs}
+        common = reprs if common is None else {k: v for k, v in common.items() if k in reprs}
+    out = list((common or {}).values())
+    _OK_FACTS[key] = out
+    return out
+
+
+def _subst_atoms(lin, mapping):
+    """rename atoms of a Lin by substring replacement of parameter atoms (longest first)"""
+    c = {}
+    for a, v in lin.c.items():
+        a2 = a
+        for src in sorted(mapping, key=len, reverse=True):
+            a2 = a2.replace(src, mapping[src])
+        c[a2] = c.get(a2, 0) + v
+    return Lin(c, lin.k)
+
+
+def edge_facts(B, cx, site_bb, _depth=0):
     """facts holding at entry of site_bb from dominating conditional edges"""
     dom = B.dominators()
     preds = B.preds()
@@ -347,6 +401,26 @@ def edge_facts(B, cx, site_bb):
                 facts += cond_facts(cx, sym, True)
         else:
             if sym[0] == "discr":
+                # `helper(args..)?` continued on its success edge (discriminant 0 of ControlFlow = Continue): the helper's
+                # Ok-summary holds here
+                inner = strip_refs(sym[1])
+                if inner[0] == "call" and (inner[1] or "").endswith("Try>::branch") and len(inner[2]) == 1 and vals == [0] and cx.F is not None and _depth < 2:
+                    hc = strip_refs(inner[2][0])
+                    if hc[0] == "call" and hc[1] in cx.F.fns:
+                        gh = cx.F.fns[hc[1]]
+                        if gh.get("mir"):
+                            Bh = M.Body(gh)
+                            mapping = {}
+                            for i, a in enumerate(hc[2]):
+                                if i + 1 <= Bh.arg_count:
+                                    pa = M.show(("arg", Bh.local_name(i + 1) or "_%d" % (i + 1), i + 1))
+                                    mapping[pa] = M.show(strip_refs(a))
+                            for l, rel in ok_facts(cx.F, hc[1], _depth):
+                                l2 = _subst_atoms(l, mapping)
+                                for a in l2.c:
+                                    if a.startswith("len("):
+                                        cx.nonneg.add(a)
+                                facts.append((l2, rel))
                 if is_other:
                     variants.append((M.show(strip_refs(sym[1])), "not", tuple(t["vals"])))
                 elif len(vals) == 1:
